@@ -26,6 +26,7 @@ package apiregserver
 
 import (
 	"fmt"
+	"os"
 	"strings"
 	"time"
 
@@ -175,7 +176,12 @@ func (c *c11Reg) histWrapper(kind string) *pb.C2SWrapper {
 
 func (c *c11Reg) histories() {
 	alphabet := append(append([]string{}, c11HistKinds...), "reload")
-	maxLen := vlib.Budget(3, 4)
+	// an enumeration DEPTH, not a case count: never through vlib.Budget (the targeted search multiplies
+	// budgets by 4, and 7^12 histories do not end); the search gets the thorough depth
+	maxLen := 3
+	if vlib.Tier() == "thorough" || os.Getenv("VERIF_SEARCH") == "1" {
+		maxLen = 4
+	}
 	var seqs [][]string
 	var gen func(prefix []string)
 	gen = func(prefix []string) {
